@@ -232,11 +232,24 @@ func verifCollect[K comparable, V any](m *Map[K, V]) []Tuple[K, V] {
 //@     assigns b, first
 //@     invariant [bounds] 0 <= $idx
 
+// MarshalYAML builds a mapping node whose content is key node, value node, key
+// node, ... for the live items in order (encodes: the node is the yaml.v3
+// encoding of the value - Encode's abstract result).
 //@ func (*Map).MarshalYAML
+//@   requires m != nil ==> wf(m)
 //@   assigns nothing
+//@   ensures [node] ret1 == nil ==> typeis(ret0, *yaml.Node) && unbox(ret0, *yaml.Node) != nil && fresh(unbox(ret0, *yaml.Node)) &&
+//@       unbox(ret0, *yaml.Node).Kind == 4 && len(unbox(ret0, *yaml.Node).Content) == 2 * (m == nil ? 0 : len(m.index))
+//@   ensures [order] ret1 == nil && m != nil ==> (forall x int :: {m.items[x]} 0 <= x && x < len(m.items) && !m.items[x].deleted ==>
+//@       encodes(unbox(ret0, *yaml.Node).Content[2 * live(m.items, x)], box(K, m.items[x].Key)) &&
+//@       encodes(unbox(ret0, *yaml.Node).Content[2 * live(m.items, x) + 1], box(V, m.items[x].Value)))
 //@   loop Range.0
 //@     assigns n.Content, n.Content[..]
-//@     invariant [bounds] 0 <= $idx && n != nil && fresh(n) && (loopfresh(n.Content) || arr(n.Content) == atloop(arr(n.Content)))
+//@     invariant [bounds] 0 <= $idx && $idx <= len(m.items) && n != nil && fresh(n) && n.Kind == 4 && (loopfresh(n.Content) || arr(n.Content) == atloop(arr(n.Content))) &&
+//@         len(n.Content) == 2 * live(m.items, $idx)
+//@     invariant [order] forall x int :: {m.items[x]} 0 <= x && x < $idx && !m.items[x].deleted ==>
+//@         encodes(n.Content[2 * live(m.items, x)], box(K, m.items[x].Key)) && encodes(n.Content[2 * live(m.items, x) + 1], box(V, m.items[x].Value))
+//@     decreases len(m.items) - $idx
 
 //@ func AssertValues
 //@   requires m != nil ==> wf(m)
@@ -400,6 +413,13 @@ func verifCollect[K comparable, V any](m *Map[K, V]) []Tuple[K, V] {
 //@       len(*unbox(dst, *[]any)) == old(len(*unbox(dst, *[]any))) + 1 && (*unbox(dst, *[]any))[old(len(*unbox(dst, *[]any)))] == box(S, src) &&
 //@       (forall i int :: {(*unbox(dst, *[]any))[i]} 0 <= i && i < old(len(*unbox(dst, *[]any))) ==> (*unbox(dst, *[]any))[i] == old((*unbox(dst, *[]any))[i]))
 //@   ensures [other] !typeis(dst, *S) && !typeis(dst, *[]S) && !typeis(dst, *[]any) && !typeis(dst, *string) && !typeis(dst, *[]string) ==> ret != nil && unchanged()
+
+// ToMapRecursive copies a generic tree into plain maps and slices; it is
+// recursive over values of type any.
+//@ func ToMapRecursive
+//@   trusted
+//@   assigns nothing
+//@   note ASSUMED: ToMapRecursive only reads its argument and builds new maps and slices (its frame is provable, but a typed-nil *Map argument would panic, which callers in this module never pass)
 
 // Unmarshal is reflection-driven and has no body the VC generator can follow.
 // ASSUMED frame: it writes only objects reachable from dst (and objects it
